@@ -99,6 +99,26 @@ def _sub_extension(pattern):
     return _sub_basename(pattern[2:])
 
 
+_leading_global_flags_re = re.compile(r"\(\?([aiLmsux]+)\)")
+
+
+def _translate_fullpath(pattern):
+    """Translate a fullpath or RE: pattern to a regular expression.
+
+    Global inline flags at the start of a regular expression (e.g. the
+    documented ``RE:(?i)foo``) are turned into a scoped group
+    (``(?i:foo)``): every translated pattern ends up inside a group of a
+    larger regex, where Python no longer accepts global flags, and the flags
+    should only apply to the pattern that carries them anyway.
+    """
+    translated = _sub_fullpath(pattern)
+    if pattern.startswith("RE:"):
+        m = _leading_global_flags_re.match(translated)
+        if m is not None:
+            translated = f"(?{m.group(1)}:{translated[m.end() :]})"
+    return translated
+
+
 class Globster:
     """A simple wrapper for a set of glob patterns.
 
@@ -137,7 +157,7 @@ class Globster:
             "prefix": r"(?:.*/)?(?!.*/)(?:.*\.)",
         },
         "basename": {"translator": _sub_basename, "prefix": r"(?:.*/)?(?!.*/)"},
-        "fullpath": {"translator": _sub_fullpath, "prefix": r""},
+        "fullpath": {"translator": _translate_fullpath, "prefix": r""},
     }
 
     def __init__(self, patterns):
